@@ -39,3 +39,15 @@ PLAIN.append(G("p21", "abcz", ["Sx"], [("Sx", "Tx z"), ("Tx", "Sx"), ("Tx", "a")
 PLAIN.append(G("p22", "ab", ["Sx"], [("Sx", "Ax Sx b"), ("Sx", ""), ("Ax", "a")]))
 PLAIN.append(G("p23", "abc", ["Sx", "Lx"], [("Sx", "Lx c"), ("Lx", "Lx Ix"), ("Lx", "Ix"), ("Ix", "a"), ("Ix", "b")]))
 PLAIN.append(G("p24", "abc", ["Sx"], [("Sx", "Ox Px"), ("Ox", ""), ("Ox", "a"), ("Px", "Qx c"), ("Qx", ""), ("Qx", "Qx b")]))
+
+
+# ---- precedence / associativity (C04, also used by C05 for explicit nonassoc errors) ----
+PREC = [
+    G("e01", "pma", ["Sx"], [("Sx", "Ex"), ("Ex", "Ex p Ex"), ("Ex", "Ex m Ex"), ("Ex", "a")], prec=[("left", ["p"]), ("left", ["m"])]),
+    G("e02", "pwa", ["Sx"], [("Sx", "Ex"), ("Ex", "Ex p Ex"), ("Ex", "Ex w Ex"), ("Ex", "a")], prec=[("left", ["p"]), ("right", ["w"])]),
+    G("e03", "lpa", ["Sx"], [("Sx", "Ex"), ("Ex", "Ex l Ex"), ("Ex", "Ex p Ex"), ("Ex", "a")], prec=[("nonassoc", ["l"]), ("left", ["p"])]),
+    G("e04", "mua", ["Sx"], [("Sx", "Ex"), ("Ex", "m Ex"), ("Ex", "Ex m Ex"), ("Ex", "Ex u Ex"), ("Ex", "a")], prec=[("left", ["m"]), ("left", ["u"]), ("right", ["h"])],
+      rule_prec={1: "h"}, extra_terms="h"),
+    G("e05", "pmqa", ["Sx"], [("Sx", "Ex"), ("Ex", "Ex p Ex"), ("Ex", "Ex m Ex"), ("Ex", "Ex q Ex"), ("Ex", "a")], prec=[("left", ["p", "m"]), ("right", ["q"])]),
+    G("e06", "ieoa", ["Sx"], [("Sx", "Tx"), ("Tx", "i Tx"), ("Tx", "i Tx e Tx"), ("Tx", "o")], prec=[("nonassoc", ["i"]), ("nonassoc", ["e"])]),   # dangling else by precedence
+]
